@@ -40,7 +40,8 @@ def gen_expr(rng):
     d = len(N)
     if rng.random() < 0.15:          # multiplied by a scalar that is itself computed from (tracked) TT operands
         Ns = [rng.choice([2, 3]) for _ in range(rng.choice([1, 2]))]
-        sc = Op("ODot", [tt(rng, Ns), tt(rng, Ns)]) if rng.random() < 0.6 else Op("OSum", [tt(rng, Ns)])
+        u = tt(rng, Ns)                                  # the scalar is a sum of squares of a non-zero tensor: never exactly 0, where `other != 0` is not differentiable
+        sc = Op("ODot", [u, u]) if rng.random() < 0.6 else Op("OSum", [Op("OMul", [u, u])])
         e = Op(rng.choice(["OMul", "ORMul"]), [e, sc]); tags.append("*computed-scalar")
     k = rng.random()
     if k < 0.12 and d >= 2:
